@@ -196,6 +196,9 @@ theorem step_noSR (cfg : Cfg) (s t : St) (f : Bool) (h : Step cfg f s t) (inv : 
   | clAcq _ i hi ht =>
     have l1 := le_tot srAllW _ _ _ hi
     (try simp only [St.setDone, St.setBg, ↓reduceIte, Bool.false_eq_true, Bool.and_false, Bool.and_true, Bool.false_and, Bool.true_and]) <;> (repeat' split) <;> simp_all [tot_set_eq _ _ _ _ _ hi, tot_ackWs_srall, srAllW, St.bg, onOk, onErr, selNext, afterSetErr] <;> (try omega)
+  | clAcqKept _ i hi he hk hs =>
+    have l1 := le_tot srAllW _ _ _ hi
+    (try simp only [St.setDone, St.setBg, ↓reduceIte, Bool.false_eq_true, Bool.and_false, Bool.and_true, Bool.false_and, Bool.true_and]) <;> (repeat' split) <;> simp_all [tot_set_eq _ _ _ _ _ hi, tot_ackWs_srall, srAllW, St.bg, onOk, onErr, selNext, afterSetErr] <;> (try omega)
   | clWait _ i hi hm ht =>
     have l1 := le_tot srAllW _ _ _ hi
     (try simp only [St.setDone, St.setBg, ↓reduceIte, Bool.false_eq_true, Bool.and_false, Bool.and_true, Bool.false_and, Bool.true_and]) <;> (repeat' split) <;> simp_all [tot_set_eq _ _ _ _ _ hi, tot_ackWs_srall, srAllW, St.bg, onOk, onErr, selNext, afterSetErr] <;> (try omega)
